@@ -131,11 +131,11 @@ PROPS = {
     },
     "C03": {
         "props_file": "Props/C03.v",
-        "run_files": ["Run/CaseConn.v"],
+        "run_files": ["Run/CaseConn.v", "Run/CaseIp.v"],
         "imports": ["Lib.Bytes", "Codec.Desc", "Conn.Types", "Conn.Prog", "Conn.Sem1", "Run.CaseConn"],
         "case_type": "conn_case",
         "checkers": {"BASE": "check_c03", "C03": "check_c03"},
-        "harness": [{"bin": "conn", "env": {"VERIF_FAMILIES": "BASE,C03"}}],
+        "harness": [{"bin": "conn", "env": {"VERIF_FAMILIES": "BASE,C03"}}, {"bin": "iptext", "case_type": "ipcase", "imports": ["Lib.Bytes", "Lib.IpText", "Run.CaseIp"], "checkers": {"SHOW": "check_ip", "PARSE": "check_ip", "SOCK": "check_ip"}, "shard": 300}],
         "shard": 40,
         "quick_scale": 1, "thorough_scale": 8, "search_factor": 4,
         "ties": ["conn binary: real Connection::listen on a scripted transport/client/adapters in a paused runtime vs Conn.Sem1.run1 (sends, calls, outcome, virtual ms)",
@@ -246,6 +246,33 @@ PROPS = {
                                      "RSA PKCS#1 v1.5, serde_json, uuid generation, SystemTime: oracles recorded per case / universally quantified in the theorems",
                                      "monitor on the implementation's trace: observable events are the implementation's, unobservable ones (frame consumption, fresh values) are aligned from the model's run"],
         "assumptions": ["frames delivered atomically (segmentation is C08's subject)", "event times distinct from tick instants and adapter completions"],
+    },
+    "C19": {
+        "props_file": "Props/C19.v",
+        "run_files": ["Run/CaseC19.v", "Run/CaseIp.v"],
+        "imports": ["Lib.Bytes", "Lib.IpText", "Adapters.Grpc", "Run.CaseC19"],
+        "case_type": "c19case",
+        "checkers": {"DISC": "check_c19", "SEL": "check_c19"},
+        "harness": [{"bin": "grpc", "crate": "harness-net"}, {"bin": "iptext", "case_type": "ipcase", "imports": ["Lib.Bytes", "Lib.IpText", "Run.CaseIp"], "checkers": {"SHOW": "check_ip", "PARSE": "check_ip", "SOCK": "check_ip"}, "shard": 300}],   # iptext: LIBIP tie of Lib/IpText.v (needs its own checker entry; or rely on LIBIP)
+        "shard": 100,
+        "quick_scale": 1, "thorough_scale": 8, "search_factor": 4,
+        "ties": ["harness-net/src/bin/grpc.rs runs the real GrpcDiscoveryAdapter / GrpcStrategyAdapter against in-process tonic "
+                 "Discovery / Strategy services generated from /repo/passage-adapters/grpc/proto; replies are scripted, the request is "
+                 "recorded as the service decoded it",
+                 "Lib/IpText.v (IpAddr text form) is tied to std by the iptext binary (LIBIP)"],
+        "allowed_axioms": [],
+        "rule": "grpc binary: DISC = grid of host forms x ports, bad hosts, duplicate-key metadata, seeded lists of 0-6 wire targets "
+                "(mostly valid; exactly one malformed; several malformed); SEL = seeded select() calls (IPv4/IPv6 clients, host text, "
+                "i32 protocol incl. negatives, UUIDs, 0-6 candidates) with the service echoing a candidate, answering a foreign or "
+                "malformed target, or none; non-trivial = DISC with at least one target, SEL always",
+        "trusted_base": COMMON_TB + ["harness-net/ (tonic mock services, build.rs server stubs)",
+                                     "hand model Adapters/Grpc.v of passage-adapters/grpc/src/{proto,discovery_adapter,strategy_adapter}.rs "
+                                     "(tied by the grpc correspondence)",
+                                     "prost 0.14 / tonic 0.14 / hyper / h2 encoding and transport (tied by every case)",
+                                     "hand model Lib/IpText.v of Rust std text form (tied by the iptext correspondence)",
+                                     "uuid crate Display (tied by every SEL case)"],
+        "assumptions": ["flowinfo / scope id of a SocketAddrV6 are not part of a target (dropped by ip().to_string(), zero after SocketAddr::new)",
+                        "transport failures (FailedFetch) and the status adapter are outside the property"],
     },
 }
 
